@@ -12,7 +12,7 @@ func init() {
 		Run: func(c *Ctx, tier string) []*Result {
 			scan := c.RuleScanErr()
 			chain := c.errChainFor(scannerFns(c))
-			return append([]*Result{scan, c.RuleLimitRead(), c.RuleNoRecover(), c.RuleReadLine(), c.RuleBorrow(), c.RuleBufwFlush(), c.RuleScanSplit(), c.RuleDoubleWrap(), c.RuleReadEOF(), c.RuleCacheReader(), c.RuleAppendAlias(), c.RuleWalkSkip("update", "compare", "format", "renumber-tests", "update-copyright")}, chain...)
+			return append([]*Result{scan, c.RuleLimitRead(), c.RuleRecvCopy(), c.RuleNoRecover(), c.RuleReadLine(), c.RuleBorrow(), c.RuleBufwFlush(), c.RuleScanSplit(), c.RuleDoubleWrap(), c.RuleReadEOF(), c.RuleCacheReader(), c.RuleAppendAlias(), c.RuleWalkSkip("update", "compare", "format", "renumber-tests", "update-copyright")}, chain...)
 		},
 	}
 	Properties["C16"] = &Property{
@@ -26,7 +26,7 @@ func init() {
 		Run: func(c *Ctx, tier string) []*Result {
 			drop, handle := c.RuleErrCached()
 			return []*Result{drop, handle, c.RuleErrFlags(), c.RuleErrLog(), c.RuleErrEvent(), c.RuleErrExit(), c.RuleValidate(), c.RuleIsoFresh(), c.RuleFsWriteDiscipline(), c.RuleNarrow(), c.RuleSiblingRuleId(), c.RuleFlagsReject(), c.RuleProcStart(), c.RuleWalkErr(),
-				c.RuleWalkSkip("update", "compare", "format", "renumber-tests", "update-copyright"), c.RuleWalkFilter("update", "compare", "format", "renumber-tests", "update-copyright"), c.RuleNoRecover(), c.RuleCaptureRaw(), c.RuleErrWrap(), c.RuleValidateStore(), keyHas(c.RuleRxRebuild(), 0, "regex.FlagsRegex"), c.RuleRxGrammar(), c.RuleStdoutPure(), c.RuleSearchResume(), c.RuleCmdTypeEnum(), c.RuleGoShared(), c.RuleCtorDefaults(), c.RuleErrorfNil(), c.RuleSplitJoinFrame(), c.RuleCompareVerdict(), c.RuleLocComment(), c.RuleStdoutNone("update"), c.RuleWalkStop()}
+				c.RuleWalkSkip("update", "compare", "format", "renumber-tests", "update-copyright"), c.RuleWalkFilter("update", "compare", "format", "renumber-tests", "update-copyright"), c.RuleNoRecover(), c.RuleRecvCopy(), c.RuleCaptureRaw(), c.RuleIsoGlobal("update", "compare", "format", "renumber-tests", "update-copyright"), c.RuleErrWrap(), c.RuleValidateStore(), keyHas(c.RuleRxRebuild(), 0, "regex.FlagsRegex"), c.RuleRxGrammar(), c.RuleStdoutPure(), c.RuleSearchResume(), c.RuleCmdTypeEnum(), c.RuleGoShared(), c.RuleCtorDefaults(), c.RuleErrorfNil(), c.RuleSplitJoinFrame(), c.RuleCompareVerdict(), c.RuleLocComment(), c.RuleStdoutNone("update"), c.RuleWalkStop()}
 		},
 	}
 }
